@@ -74,6 +74,7 @@ def jobs(tier, seed):
     for m in (5, 7):
         for fam in ('tiny', 'wide'):
             out.append(('concrete-m%d-%s' % (m, fam), dict(kind='concrete', m=m, family=fam, seed=seed)))
+    out.append(('integer-typed-nodes-witness', dict(kind='intwitness', m=5, family='', seed=seed)))
     for m in (2, 3, 6):
         out.append(('wrappers-m%d' % m, dict(kind='wrappers', m=m, family='uniform', seed=seed)))
     return out
@@ -85,7 +86,40 @@ def run_job(job, kind, m, family, seed):
         return symbolic(job, fb, m)
     if kind == 'concrete':
         return concrete(job, fb, m, family, seed)
+    if kind == 'intwitness':
+        bad = int_witness_failures(fb)
+        if not job.confirm('integer-typed nodes / x0 give the exact rational weights (concrete runs)', not bad):
+            job.violation('int', dict(key='C15:integer-typed-nodes', kind='intwitness', detail=bad[0]))
+        return
     return wrappers(job, fb, m)
+
+
+def int_witness_failures(fb):
+    """CONCRETE witness runs (not solver evidence): nodes and x0 given as Python ints / lists / tuples / int arrays, small and
+    large spacings (products of node differences beyond 2**63), against the exact rational Lagrange weights"""
+    bad = []
+    sets = [list(range(-2, 3)), [-200000, -100000, 0, 100000, 200000], [-4 * 10 ** 9, 0, 4 * 10 ** 9], list(range(0, 1400, 100)),
+            (0, 1, 3, 7), [5, -3, 2, 11, 0, -8]]
+    for nodes in sets:
+        m = len(nodes)
+        for x0 in (nodes[m // 2], nodes[0] - 1, 0):
+            for conv in (lambda v: v, lambda v: np.array(v), lambda v: [float(t) for t in v]):
+                arg = conv(list(nodes)) if not isinstance(nodes, tuple) else conv(nodes)
+                n = min(m - 1, 3)
+                try:
+                    with np.errstate(all='ignore'):
+                        w = np.asarray(fb.fd_weights_all(arg, x0, n), dtype=float)
+                except Exception as e:  # noqa
+                    bad.append('fd_weights_all(%r, %r, %d) raises %s: %s' % (arg, x0, n, type(e).__name__, e))
+                    continue
+                ew = exact_weights([Fraction(v) for v in nodes], Fraction(x0), n)
+                for k in range(n + 1):
+                    ref = np.array([float(v) for v in ew[k]])
+                    scale = np.max(np.abs(ref)) + 1e-300
+                    if w.shape != (n + 1, m) or np.max(np.abs(w[k] - ref)) > 1e-9 * scale:
+                        bad.append('row %d of fd_weights_all(%r, x0=%r) = %s, exact Lagrange weights %s' % (k, arg, x0, w[k].tolist(), ref.tolist()))
+                        break
+    return bad
 
 
 def symbolic(job, fb, m):
@@ -285,6 +319,9 @@ def replay(cex):
     fb = cm.nd_mods()['fb']
     cfg = cex['config']
     kind = cex.get('kind')
+    if kind == 'intwitness':
+        bad = int_witness_failures(fb)
+        return (True, bad[0]) if bad else (False, 'integer-typed nodes give the exact weights')
     asg = cm.assignment_from_model(cex.get('model', {}))
     m = cfg['m']
     if kind in ('sym', 'shape') and cfg['kind'] == 'symbolic':
